@@ -26,7 +26,10 @@ MAP = {
     "custom_": [(P, r"Parser<'src, I, O, E> for Custom<F, I, O, E>")],
     "group2": [(P, r"macro_rules! impl_group_for_tuple")], "group3": [(P, r"macro_rules! impl_group_for_tuple")],
     "group_array": [(P, r"Parser<'src, I, \[O; N\], E> for Group<\[P; N\]>"), ("src/private.rs", r"fn array_assume_init")],
-    "choice3": [(P, r"macro_rules! impl_choice_for_tuple")], "choice1": [(P, r"macro_rules! impl_choice_for_tuple")],
+    "choice3": [(P, r"macro_rules! impl_choice_for_tuple")], "choice4": [(P, r"macro_rules! impl_choice_for_tuple")], "group4": [(P, r"macro_rules! impl_group_for_tuple")],
+    "pratt_loop": [("src/pratt.rs", r"fn pratt_go<M: Mode, I, O, E>")], "repeated_collect_vec": [(C, r"for Collect<A, O, C>"), (C, r"IterParser<'src, I, O, E> for Repeated<A, O, I, E>")],
+    "configure_collect_vec": [(C, r"for Collect<A, O, C>"), (C, r"IterParser<'src, I, O, E> for IterConfigure<A, F, O>"), (C, r"fn next_cfg<M: Mode>")],
+    "memo_table_with_ctx": [(I, r"pub\(crate\) fn with_ctx")], "memo_table_nested_in": [(C, r"for NestedIn<A, B, J, F, O, E>"), (I, r"pub\(crate\) fn with_input")], "choice1": [(P, r"macro_rules! impl_choice_for_tuple")],
     "choice_array": [(P, r"for Choice<\[A; N\]>"), (P, r"for Choice<&\[A\]>")], "choice_slice": [(P, r"for Choice<&\[A\]>")],
     "choice_vec": [(P, r"for Choice<Vec<A>>")], "choice_empty": [(P, r"for Choice<&\[A\]>")],
     "delimited_by": [(C, r"for DelimitedBy<A, B, C, OB, OC>")], "padded_by": [(C, r"for PaddedBy<A, B, OB>")],
